@@ -66,13 +66,13 @@ PROPS = {
         explanation='Kani (bounded): call-log harnesses. Every user closure logs (stage, source position); for must-visit terminals the call multiset equals the std chain (each stage exactly once per element reaching it, nothing for elements delivered to other workers); short-circuit terminals call each closure at most once per element. Covers every kernel task and the closure compositions of src/par/*.rs. ' + MC_TEXT,
     ),
     'C06': dict(
-        level='model_checking', verus_units=['merge'],
+        level='model_checking', verus_units=['merge', 'tasks'],
         kani=True,
         kani_select=dict(quick=r'^k_glue_map_fil_col_n2c1|^k_api_(par2|seq|par2u|sequ)_(map|map_fil)_into_vec',
                          thorough=r'^k_glue_\w+_col_n|^k_api_\w+_into_'),
         trusted_base=[T1, T2, T3, T4, T5, ASPEC, A64, RSCHED, STUBS, MODEL],
         assumptions=[TASK_BOUND, 'targets hold one pre-existing symbolic element'],
-        explanation='Verus (unbounded): the merge appends after the untouched prefix old(output). Kani (bounded): collect_into for Vec / SplitVec / FixedVec targets with symbolic pre-existing contents, map-only (ordered bag) and filtering (merge) pipelines, known and unknown source length, parallel and num_threads(1): result == existing ++ std chain. ' + MC_TEXT,
+        explanation='Verus (unbounded): the merge appends after the untouched prefix old(output); the chunked arm of map_col::task writes only at positions >= the number of pre-existing elements (offset + chunk.begin_idx). Kani (bounded): collect_into for Vec / SplitVec / FixedVec targets with symbolic pre-existing contents, map-only (ordered bag) and filtering (merge) pipelines, known and unknown source length, parallel and num_threads(1): result == existing ++ std chain. ' + MC_TEXT,
     ),
     'C07': dict(
         level='model_checking', verus_units=['core'],
